@@ -4,6 +4,18 @@ usage: seeded_meta.py <results dir> [<results dir> ...]   (later directories ove
 import json, os, re, sys
 
 WHAT = {
+ "r4-C01a": "InverseGaussian 'degenerate quadratic' fast path returns mu when a = mu v^2/(2 lambda) < epsilon: atom at x = mean of mass 0.8 sqrt(2 eps shape/mean); f32 only in practice, KS 2e-4 sqrt(shape/mean) (1.3e-2 at IG(2, 8000))",
+ "r4-C01b": "Beta BB early accept when z = u1^2 u2 < epsilon: the far w -> 0 tail of the proposal is accepted wholesale; f32: one tail (probability <= 1e-3) over-weighted by 2x .. 150x, sup CDF deviation 3e-4 .. 4.5e-4",
+ "r4-C02a": "BTPE step 5.3 Stirling term uses f_m for x_m = m + 1/2: log-acceptance shifted by (frac(np+p) - 1/2) ln((m+1)/(y+1)) for 20 < |y-m| < npq/2 - 1; TV up to 6e-3 for npq of a few hundred, none at npq < 44 and 1/sqrt(m) decay for huge n",
+ "r4-C02b": "Hypergeometric HIN initial probability via Stirling ln_factorial when n1 + k > 65536: p(0) carries a relative error of 2e-3 .. 8e-3 at N >= 2^38.5 (and makes parameter sets valid and fast that the original rejects or constructs in seconds)",
+ "r4-C03": "ziggurat one-sided uniform subtracts 1.0 instead of 1 - eps/2: Exp1 returns exactly 0 for words with bits 12..63 zero; Exp(0) and Gamma(1, inf) give NaN, StudentT(2) / FisherF(., 2) give inf",
+ "r4-C05": "Geometric::new bounded search for k capped at u32::BITS = 32 (needs 53): for p < 1.6e-10 the D ~ Geo(pi) loop consumes 1/(2^32 p) words per sample (25 at 1e-11, 2e5 at 1e-15); the law stays exact",
+ "r4-C06": "Exp1 tail reuses the ziggurat's u (uniform on [R/(R+1), 1) there) instead of a fresh uniform: exponential tail truncated at 7.82, Kolmogorov distance 4.0e-4",
+ "r4-C08": "alias construction no longer clamps w * n to MAX: for float vectors holding the per-length maximum fl(MAX/n) with fl(MAX/n) * n = inf (f64 n = 3, 6, 7, ..; f32 n >= 25) one column gets infinite odds and absorbs the others; sampling frequencies wrong ([m, m, 0] -> 1/3, 2/3, 0)",
+ "r4-C10": "WeightedTreeIndex::update fast path `subtotals[index] == weight` returns early: an inner node updated to a value equal to its current subtotal keeps its old weight; later samples follow the stale weights",
+ "r4-C11": "DirichletFromBeta sets the last component to 1 - (sum of the others) instead of the remaining stick: negative components down to -2e-16 (f64) / -5e-7 (f32) for lengths >= 4, last component quantised",
+ "r4-C12": "UnitDisc: first candidate as before, otherwise a direct 'uniform point on a chord' construction: mixture pi/4 uniform + (1 - pi/4) chord law; r^2 sup-distance 0.0176, x marginal 0.0124",
+ "r4-C13": "Triangular upper branch: sub-branch for 1 - f < sqrt(eps) with a misplaced parenthesis (distance to max scaled by sqrt(max - mode)): 5792 top f32 draws, CDF off by 3.45e-4 |1 - 1/(max - mode)|, non-monotone",
  "r3-C01": "Beta BC kappa2 with a misplaced parenthesis (0.25 + 0.75/delta*b): quick-rejection threshold too small whenever the two shapes differ and one is <= 1; KS distance 0.002 (1,1.2) .. 0.11 (1,10)",
  "r3-C02": "Poisson rejection method step Q compares with u instead of 1-u (u is the small squeeze uniform, not a fresh one): left side gets the symmetric normal mass, CDF off by 0.14/sqrt(lambda) for every lambda >= 12",
  "r3-C02x": "Poisson step S squeeze shrunk by a 'continuity correction' (lambda - k - 0.5)^3: quick-accept region larger than the exact one, TV 0.037/lambda (3e-3 at lambda = 12)",
@@ -53,7 +65,7 @@ def main():
         if os.path.exists(ep):
             extra = json.load(open(ep))
         meta = {
-            "id": mid, "property": prop, "round": 3,
+            "id": mid, "property": prop, "round": int(re.match(r"r(\d+)-", mid).group(1)) if re.match(r"r(\d+)-", mid) else 1,
             "what_it_needs_to_manifest": WHAT.get(mid, ""),
             "confirmed_by_me": {
                 "scratch_worktree": "git worktree of /repo HEAD under /tmp, removed afterwards",
@@ -65,7 +77,7 @@ def main():
             "caught_by": extra.get("caught_by", ", ".join(sorted(caught)) if caught else None),
             "first_violation_line": {k: v for k, v in c["lines"].items()},
             "missed_because": extra.get("missed_because"),
-            "source": "independent sub-agent (round 3; told which sites earlier rounds had used) given only the property text and a scratch worktree",
+            "source": "independent sub-agent (told which sites earlier rounds had used) given only the property text and a scratch worktree",
         }
         if "note" in extra:
             meta["note"] = extra["note"]
